@@ -71,7 +71,7 @@ def check(ctx):
                             e2 = env
                             for c in a['pc']:
                                 e2 = fp.refine(c, e2, True)
-                            vals |= fp.ev(a['args'][3], e2).cls
+                            vals |= fp.ev(accumulate_args(p, a)[0][3], e2).cls
                     if ret.tainted or nz.tainted or fin.tainted:
                         raise AnalysisBroken('invoke summary depends on an unknown value: %s'
                                              % (ret.why or nz.why or fin.why))
@@ -137,11 +137,11 @@ def check(ctx):
                               'change no counter')
                 # the accumulated value is the (finite) value itself
                 for a in acc:
-                    if a['args'][3] == v:
+                    if accumulate_args(p, a)[0][3] == v:
                         ctx.holds('R2.value', '%s:%s' % (a['where'], f.name), 'the bin accumulates the value handed in')
                     else:
                         ctx.violation('R2.value', '%s:%s' % (a['where'], f.name), 'the bin accumulates a '
-                                      'different value', {'accumulated': T.pretty(a['args'][3])[:300]})
+                                      'different value', {'accumulated': T.pretty(accumulate_args(p, a)[0][3])[:300]})
             ctx.guard('R2', fsite(f), r2)
     ctx.count('distribution fill functions', nd, 2)
 
